@@ -23,6 +23,7 @@
 import Babylon.ExecQ.LemmasProgress
 import Babylon.ExecQ.Sched
 import Babylon.ExecQ.Pinned
+import Babylon.ExecQ.View
 
 namespace Babylon.Properties.C16
 open Babylon.ExecQ Babylon.Gen.ExecQ Babylon.Core
@@ -359,6 +360,90 @@ theorem eq_refused_recovers (c : Cfg) (hc : c.sizeCheck = true) (s s' : State) (
     have hs := hcov i h1
     refine ⟨hs, ?_⟩
     rcases hq'.conv i h2 hs with ⟨it, h⟩ | h <;> rw [h] <;> rfl
+
+/-! ## Hand-off under the release/acquire view model (weak memory)
+
+`Babylon.ExecQ.View`: `_events` and consumer-private locations in the view memory of
+`Babylon/Core/MemView.lean`; `View.Path codeOrds m m'` = any number of protocol actions of any threads
+between two memories, every admissible stale read included; `codeOrds` = the generated memory orders. -/
+
+section ViewLevel
+open Babylon.ExecQ.View Babylon.Core.MemView
+
+/-- the generated orders have the strengths the hand-off needs: the consumer's exit CAS, the roll-back CAS
+and the signal release; the signal and join's load acquire -/
+theorem gen_view_orders :
+    codeOrds.exitS.releases = true ∧ codeOrds.rbS.releases = true ∧ codeOrds.sig.releases = true ∧
+    codeOrds.sig.acquires = true ∧ codeOrds.join.acquires = true := codeOrds_ok
+
+/-- **Consecutive consumer incarnations are ordered (view level).**  In every execution of the view model
+that starts from an initial memory: consumer incarnation k (thread `c`) leaves with its successful exit CAS
+on `_events` at memory `m0`; after any further actions of any threads a producer `p` performs the
+`_events.fetch_add` that launches incarnation k+1 (any later signal in fact — all writes of `_events` are
+RMWs, so it reads from the release sequence headed by that CAS).  Then
+ * everything `c` had seen or done when it left is in `p`'s view right after that RMW, and stays there
+   (inline executor: `p` itself is incarnation k+1);
+ * it is in the view of any thread `b` the executor starts the consumer on (hand-off from `p`);
+ * hence any read of a consumer-private location by a thread whose view contains `p`'s returns a message
+   at least as new as the newest one incarnation k had seen or written (`write_ts_in_view`: its own
+   writes included) — never an older, stale one. -/
+theorem eq_consumer_handoff_view (iv : Loc → Nat) (m0 m1 m2 m3 : Mem Loc) (c p e ts obs old : Nat)
+    (hinit : Path codeOrds (Mem.init iv) m0)
+    (hexit : m0.cas c .events codeOrds.exitS codeOrds.exitF e 0 ts = some (m1, true, obs))
+    (hpath : Path codeOrds m1 m2)
+    (hsig : m2.rmw p .events codeOrds.sig (· + 1) = some (m3, old)) :
+    (m0.tv c).cur ≤ (m3.tv p).cur ∧
+    (∀ m4, Path codeOrds m3 m4 → (m0.tv c).cur ≤ (m4.tv p).cur) ∧
+    (∀ (m4 : Mem Loc) (b : Nat), Path codeOrds m3 m4 → (m0.tv c).cur ≤ ((handoffMem m4 p b).tv b).cur) ∧
+    (∀ (m4 m5 : Mem Loc) (b k : Nat) (ord : Core.Ord) (tsr v : Nat), (m0.tv c).cur ≤ (m4.tv b).cur → m4.read b (.priv k) ord tsr = some (m5, v) →
+      (m0.tv c).cur.get (.priv k) ≤ tsr) := by
+  have hx : m0.rmw c .events codeOrds.exitS (fun _ => 0) = some (m1, obs) := by
+    rcases Mem.cas_spec hexit with ⟨_, _, h⟩ | ⟨h, _⟩
+    · exact h
+    · cases h
+  have h1 : (m0.tv c).cur ≤ (m3.tv p).cur :=
+    handoff_rmw (reach_chain iv hinit) hx gen_view_orders.1 hpath hsig gen_view_orders.2.2.2.1
+  refine ⟨h1, fun m4 h4 => View.le_trans h1 ((path_ext h4).cur p), ?_, ?_⟩
+  · intro m4 b h4
+    have h2 := View.le_trans h1 ((path_ext h4).cur p)
+    simp only [handoffMem, MemView.upd_same]
+    exact View.le_trans h2 (View.le_join_right _ _)
+  · intro m4 m5 b k ord tsr v hle hr
+    exact Nat.le_trans (hle (.priv k)) (read_respects_view hr)
+
+/-- **join() sees what the consumers did (view level).**  In every execution of the view model: if the
+load of `join()` (generated order) reads message number `tsj` of `_events`, then for every consumer exit
+(successful exit CAS of thread `c` at memory `m0`) whose message is `tsj` or an earlier one, everything
+`c` had seen or done when it left — all its consume-function calls — is in the joining thread's view.
+A joiner that knows of a signal (its view of `_events` covers the signal's message) can only read that
+message or a later one, so the 0 it reads was written after that signal.  (That the consumers which
+left by then have handled everything signalled before is the protocol theorem `eq_refused_recovers`.) -/
+theorem eq_join_view (iv : Loc → Nat) (m0 m1 m2 m3 : Mem Loc) (c j e ts obs tsj v : Nat)
+    (hinit : Path codeOrds (Mem.init iv) m0)
+    (hexit : m0.cas c .events codeOrds.exitS codeOrds.exitF e 0 ts = some (m1, true, obs))
+    (hpath : Path codeOrds m1 m2)
+    (hjoin : m2.read j .events codeOrds.join tsj = some (m3, v)) :
+    (m0.len .events ≤ tsj → (m0.tv c).cur ≤ (m3.tv j).cur) ∧
+    (m2.tv j).cur.get .events ≤ tsj := by
+  have hx : m0.rmw c .events codeOrds.exitS (fun _ => 0) = some (m1, obs) := by
+    rcases Mem.cas_spec hexit with ⟨_, _, h⟩ | ⟨h, _⟩
+    · exact h
+    · cases h
+  exact ⟨fun hts => handoff_load (reach_chain iv hinit) hx gen_view_orders.1 hpath hjoin gen_view_orders.2.2.2.2 hts,
+    read_respects_view hjoin⟩
+
+/-- with the generated orders the next incarnation / the joiner cannot read the private location's stale
+initial message and does read incarnation k's write … -/
+example : handOffRun codeOrds.exitS codeOrds.sig 0 = none ∧ handOffRun codeOrds.exitS codeOrds.sig 1 = some 7 ∧
+    joinRun codeOrds.exitS codeOrds.join 0 = none ∧ joinRun codeOrds.exitS codeOrds.join 1 = some (0, 7) := by decide
+/-- … negative controls: with the exit CAS relaxed, or the launching `fetch_add` relaxed, or join's load
+relaxed, the stale read IS an execution of the view model -/
+example : handOffRun .rlx codeOrds.sig 0 = some 0 := by decide
+example : handOffRun codeOrds.exitS .rlx 0 = some 0 := by decide
+example : joinRun .rlx codeOrds.join 0 = some (0, 0) := by decide
+example : joinRun codeOrds.exitS .rlx 0 = some (0, 0) := by decide
+
+end ViewLevel
 
 /-! ## No deadlock (the safety form of "join does return") -/
 
